@@ -731,6 +731,168 @@ theorem setMax_none_pmax (s : St) : (setMax s none).1.pmax = defaultMax := by
   · rw [e]
   · rw [e, (checkAndStore_bounds _ y).2]
 
+/-! ### a crossing bound assignment followed by a corrective one (narrows D09b) -/
+
+/-- an accepted assignment overwrites the bound without reading it -/
+theorem setMin_overwrites (s : St) (a : Nat) (v : Option Int) (hl : legalBound v = true) :
+    (setMin { s with pmin := a } v).1 = (setMin s v).1 := by
+  cases v with
+  | none => rfl
+  | some x =>
+    have hd : divisible x = true := hl
+    show (if !divisible x then _ else _ : St × Res).1 = (if !divisible x then _ else _ : St × Res).1
+    rw [hd]; rfl
+
+theorem setMax_overwrites (s : St) (a : Nat) (v : Option Int) (hl : legalBound v = true) :
+    (setMax { s with pmax := a } v).1 = (setMax s v).1 := by
+  cases v with
+  | none => rfl
+  | some x =>
+    have hd : divisible x = true := hl
+    show (if !divisible x then _ else _ : St × Res).1 = (if !divisible x then _ else _ : St × Res).1
+    rw [hd]; rfl
+
+/-- a minimum above the maximum: whatever the piece length, the clamp is rejected by the
+    `piece_size` setter (or there is nothing to clamp) — only the bound is stored -/
+theorem clampMin_crossing (s : St) (m : Nat) (hx : s.pmax < m) :
+    (clampMin { s with pmin := m }).1 = { s with pmin := m } := by
+  unfold clampMin
+  split
+  · rename_i pl hp
+    split
+    · show (checkAndStore { s with pmin := m } (max ((m : Nat) : Int) (pl : Int))).1 = _
+      unfold checkAndStore
+      split
+      · rfl
+      · split
+        · rfl
+        · rename_i hb
+          exfalso
+          apply hb
+          have : ¬ (max ((m : Nat) : Int) (pl : Int) ≤ ((s.pmax : Nat) : Int)) := by omega
+          simp only [Bool.not_eq_true', Bool.and_eq_false_iff, decide_eq_false_iff_not]
+          exact Or.inr this
+    · rfl
+  · rfl
+
+theorem clampMax_crossing (s : St) (m : Nat) (hx : m < s.pmin) :
+    (clampMax { s with pmax := m }).1 = { s with pmax := m } := by
+  unfold clampMax
+  split
+  · rename_i pl hp
+    split
+    · show (checkAndStore { s with pmax := m } (min ((m : Nat) : Int) (pl : Int))).1 = _
+      unfold checkAndStore
+      split
+      · rfl
+      · split
+        · rfl
+        · rename_i hb
+          exfalso
+          apply hb
+          have : ¬ (((s.pmin : Nat) : Int) ≤ min ((m : Nat) : Int) (pl : Int)) := by omega
+          simp only [Bool.not_eq_true', Bool.and_eq_false_iff, decide_eq_false_iff_not]
+          exact Or.inl this
+    · rfl
+  · rfl
+
+theorem setMin_bounds (s : St) (v : Option Int) : (setMin s v).1.pmax = s.pmax := by
+  rcases setMin_cases s v with e | ⟨m, e | ⟨y, e⟩⟩
+  · rw [e]
+  · rw [e]
+  · rw [e, (checkAndStore_bounds _ y).2]
+
+theorem setMax_bounds (s : St) (v : Option Int) : (setMax s v).1.pmin = s.pmin := by
+  rcases setMax_cases s v with e | ⟨m, e | ⟨y, e⟩⟩
+  · rw [e]
+  · rw [e]
+  · rw [e, (checkAndStore_bounds _ y).1]
+
+/-- two assignments of the same bound in a row: if the second does not cross the other bound
+    (which neither of them changes), the invariant holds afterwards — whether or not the first
+    one crossed it -/
+theorem setMin_twice_inv {s : St} (h : Inv s) (v v' : Option Int) (hl : legalBound v' = true)
+    (hok : OpOk s (.setMin v')) :
+    Inv (setMin (setMin s v).1 v').1 := by
+  by_cases hc : OpOk s (.setMin v)
+  · apply setMin_inv (setMin_inv h v hc)
+    cases v' with
+    | none => exact True.intro
+    | some x' =>
+      show divisible x' = true → x' ≤ (((setMin s v).1.pmax : Nat) : Int)
+      rw [setMin_bounds]; exact hok
+  · cases v with
+    | none => exact absurd True.intro hc
+    | some x =>
+      have hc' : ¬ (divisible x = true → x ≤ (s.pmax : Int)) := hc
+      have hd : divisible x = true := by
+        apply Classical.byContradiction; intro hn; exact hc' (fun hd => absurd hd hn)
+      have hx : ¬ x ≤ (s.pmax : Int) := fun hle => hc' (fun _ => hle)
+      obtain ⟨_, hxn⟩ := divisible_toNat hd
+      have e : (setMin s (some x)).1 = { s with pmin := x.toNat } := by
+        show (if !divisible x then (s, Res.err .pieceSize) else clampMin { s with pmin := x.toNat }).1 = _
+        rw [hd]
+        exact clampMin_crossing s x.toNat (by omega)
+      rw [e, setMin_overwrites _ _ _ hl]
+      exact setMin_inv h v' hok
+
+theorem setMax_twice_inv {s : St} (h : Inv s) (v v' : Option Int) (hl : legalBound v' = true)
+    (hok : OpOk s (.setMax v')) :
+    Inv (setMax (setMax s v).1 v').1 := by
+  by_cases hc : OpOk s (.setMax v)
+  · apply setMax_inv (setMax_inv h v hc)
+    cases v' with
+    | none =>
+      show (setMax s v).1.pmin ≤ defaultMax
+      rw [setMax_bounds]; exact hok
+    | some x' =>
+      show divisible x' = true → (((setMax s v).1.pmin : Nat) : Int) ≤ x'
+      rw [setMax_bounds]; exact hok
+  · have e : ∃ m, (setMax s v).1 = { s with pmax := m } := by
+      cases v with
+      | none =>
+        have hc' : ¬ s.pmin ≤ defaultMax := hc
+        exact ⟨defaultMax, clampMax_crossing s defaultMax (by omega)⟩
+      | some x =>
+        have hc' : ¬ (divisible x = true → (s.pmin : Int) ≤ x) := hc
+        have hd : divisible x = true := by
+          apply Classical.byContradiction; intro hn; exact hc' (fun hd => absurd hd hn)
+        have hx : ¬ (s.pmin : Int) ≤ x := fun hle => hc' (fun _ => hle)
+        obtain ⟨_, hxn⟩ := divisible_toNat hd
+        refine ⟨x.toNat, ?_⟩
+        show (if !divisible x then (s, Res.err .pieceSize) else clampMax { s with pmax := x.toNat }).1 = _
+        rw [hd]
+        exact clampMax_crossing s x.toNat (by omega)
+    obtain ⟨m, e⟩ := e
+    rw [e, setMax_overwrites _ _ _ hl]
+    exact setMax_inv h v' hok
+
+/-- a bound assignment followed by an accepted, non-crossing assignment of the same bound -/
+theorem apply_corrected_inv {s : St} (h : Inv s) (env : Env) (op op' : Op)
+    (hs : sameBound op op' = true) (hok : OpOk s op') :
+    Inv (apply env (apply env s op).1 op').1 := by
+  cases op <;> cases op' <;> first
+    | exact Bool.noConfusion hs
+    | exact setMin_twice_inv h _ _ hs hok
+    | exact setMax_twice_inv h _ _ hs hok
+
+theorem allOkC_inv (env : Env) : ∀ (ops : List Op) (s : St), Inv s → AllOkC env s ops → Inv (run env s ops)
+  | [], _, h, _ => h
+  | [op], _, h, hok => apply_inv h env op hok
+  | op :: op' :: ops, s, h, hok => by
+    unfold AllOkC at hok
+    rcases hok with ⟨h1, h2⟩ | ⟨h1, h2, h3⟩
+    · exact allOkC_inv env (op' :: ops) _ (apply_inv h env op h1) h2
+    · exact allOkC_inv env ops _ (apply_corrected_inv h env op op' h1 h2) h3
+
+/-- histories all of whose operations satisfy `OpOk` are among them -/
+theorem allOk_allOkC (env : Env) : ∀ (ops : List Op) (s : St), AllOk env s ops → AllOkC env s ops
+  | [], _, _ => True.intro
+  | [op], _, h => h.1
+  | op :: op' :: ops, s, h => by
+    unfold AllOkC
+    exact Or.inl ⟨h.1, allOk_allOkC env (op' :: ops) _ h.2⟩
+
 theorem putGlobs_path (s : St) (inc : Bool) (gs : List Glob) :
     (putGlobs s inc gs).path = s.path ∧ (putGlobs s inc gs).pieces = s.pieces := by
   unfold putGlobs; split <;> exact ⟨rfl, rfl⟩
